@@ -23,9 +23,18 @@ static int raw_cmp(const void *a, const void *b) {
 static int counting_cmp(const void *a, const void *b) { ncmp++; return raw_cmp(a, b); }
 /* "huge" observation mode: 10^5-key histories exceed the ledger's capacity, so the table gets the real allocator
    and the ledger token is the constant L=0,0,0 on both sides */
-static void *raw_malloc(size_t n) { return (malloc)(n); }
-static void *raw_calloc(size_t a, size_t b) { return (calloc)(a, b); }
-static void raw_free(void *p) { (free)(p); }
+#pragma push_macro("malloc")
+#pragma push_macro("calloc")
+#pragma push_macro("free")
+#undef malloc
+#undef calloc
+#undef free
+static void *raw_malloc(size_t n) { return malloc(n); }
+static void *raw_calloc(size_t a, size_t b) { return calloc(a, b); }
+static void raw_free(void *p) { free(p); }
+#pragma pop_macro("malloc")
+#pragma pop_macro("calloc")
+#pragma pop_macro("free")
 static void ledger(void) { if (full == 2) printf(" L=0,0,0"); else vf_ledger(); }
 
 static CC_TreeTable *T_(void) { return isset ? set->t : tab; }
